@@ -185,6 +185,13 @@ def _q_get(self, block=True, timeout=None):
         delay("after_empty", role)
         raise
     evlog.ev("get_ret", q=q, item=summ(r), role=role)
+    if role == "worker" and _S.get("kill_on_item") is not None and summ(r) == _S["kill_on_item"]:
+        # the worker that received this item dies of a signal before it can process it (OOM killer)
+        import signal
+
+        evlog.ev("worker_killed", item=summ(r))
+        os.kill(os.getpid(), signal.SIGKILL)
+        time.sleep(5)
     delay("after_get", role)
     return r
 
@@ -280,7 +287,7 @@ def _sv_set(self, value):
 
 
 def install(profile="natural", seed=0, scale=SCALE):
-    _S.update(profile=profile, seed=seed, scale=scale, qn=0, start_index=0)
+    _S.update(profile=profile, seed=seed, scale=scale, qn=0, start_index=0, kill_on_item=None)
     for k in [k for k in _S if k.startswith("pct_") or k.startswith("stall_")]:
         del _S[k]
     if _S["installed"]:
